@@ -41,8 +41,18 @@
 (*                        permutation                          -- must FAIL   *)
 (*   trigger of the deviation: the program has at least two requirement-only  *)
 (*   random roots (with fewer, the set-ordered model passes: checked).        *)
-(* RestoreRng = FALSE is a spec-level mutant (RNG state not restored after    *)
-(* checking) showing that SaveRng/RestoreRng are load-bearing.                *)
+(* RestoreRng = "always" is the ideal; "never" (state not restored after       *)
+(* checking) and "accepted" (restored only when the sample is accepted, so what *)
+(* the checks of a REJECTED sample consumed leaks into the stream) are          *)
+(* spec-level mutants: both must FAIL, i.e. the scene then depends on the       *)
+(* checker's order, which is an environment variable.                           *)
+(*                                                                            *)
+(* The permuted group (rroots) is any set of roots whose relative order the     *)
+(* code takes from an unordered collection: random values referenced only from  *)
+(* requirements (gathered in sets before repo commit 53f03332), or the random   *)
+(* properties of an object whose sampling order comes out of specifier          *)
+(* resolution (Specifier.requiredProperties, a set of names that must be        *)
+(* sorted).  roots = pre \o perm(rroots) \o post.                               *)
 (*                                                                            *)
 (* Program format = Sampler.tla's.  A dependency order is a VARIANT of the    *)
 (* program: the harness emits one entry of Progs per permutation of the       *)
@@ -56,7 +66,7 @@
 EXTENDS Sampler
 
 CONSTANTS OrderedDeps,    \* TRUE: insertion ordered (ideal)  FALSE: set ordered (as implemented)
-          RestoreRng,     \* TRUE: RNG state restored after requirement checking
+          RestoreRng,     \* "always" (ideal) | "never" | "accepted" (only when the sample is accepted)
           FullPairs,      \* TRUE: copy 1 ranges over all environments too; FALSE: reference env
           MaxPrior,       \* bound on scenes generated before re-seeding
           R               \* raw outcomes per stream element
@@ -169,7 +179,7 @@ CheckDone ==
 \* random.setstate(rand_state); numpy.random.set_state(np_state)
 RestoreRngStep ==
   /\ pc \in {"accepting", "rejecting"}
-  /\ pos' = IF RestoreRng THEN saved ELSE pos
+  /\ pos' = IF RestoreRng = "always" \/ (RestoreRng = "accepted" /\ pc = "accepting") THEN saved ELSE pos
   /\ pc' = IF pc = "accepting" THEN "accepted" ELSE "loop"
   /\ chk' = {} /\ saved' = 0
   /\ UNCHANGED <<pid, k, active, iter, j, val, done, ws, hist, turn, np, stream, obs1, env1>>
@@ -223,7 +233,7 @@ PrefixConsistent == (turn = 2) => IsPrefix(UserDraws, obs1.draws)
 
 \* requirement checking does not move the user-visible stream: outside the checking
 \* section the position is the number of user-visible draws since seeding
-StreamUntouched == (RestoreRng /\ pc \in {"activate", "loop", "sampling", "accepted", "exhausted"})
+StreamUntouched == (RestoreRng = "always" /\ pc \in {"activate", "loop", "sampling", "accepted", "exhausted"})
                       => pos = Len(UserDraws)
 
 \* every flag a prior scene left behind is overwritten before the rejection loop
